@@ -443,3 +443,96 @@ func subOverflows(a, b Integer) bool {
 //@ loop 1 invariant [C07.end] forall k :: 0 <= k && k < len(intp.Stack) ==> intp.Stack[k] == old(intp.Stack[k])
 //@ loop 1 invariant [C07.end] len(intp.cmapMappings.CidChars) == old(len(intp.cmapMappings.CidChars)) && (forall k :: 0 <= k && k < len(intp.cmapMappings.CidChars) ==> intp.cmapMappings.CidChars[k] == old(intp.cmapMappings.CidChars[k]))
 //@ loop 1 invariant [C07.end] forall k :: 0 <= k && k < i ==> intp.cmapChars[k].Dst == intp.Stack[base+2*k+1] && isType(intp.Stack[base+2*k], String) && ref(intp.cmapChars[k].Src) == ref(intp.Stack[base+2*k].(String)) && len(intp.cmapChars[k].Src) == len(intp.Stack[base+2*k].(String))
+
+//@ define BfCharsMoved(intp) = forall k :: 0 <= k && k < old(len(intp.cmapChars)) ==>
+//@   intp.cmapMappings.BfChars[old(len(intp.cmapMappings.BfChars)) + k].Dst == old(intp.Stack[len(intp.Stack) - 2*len(intp.cmapChars) + 2*k + 1]) &&
+//@   isType(old(intp.Stack[len(intp.Stack) - 2*len(intp.cmapChars) + 2*k]), String) &&
+//@   ref(intp.cmapMappings.BfChars[old(len(intp.cmapMappings.BfChars)) + k].Src) == ref(old(intp.Stack[len(intp.Stack) - 2*len(intp.cmapChars) + 2*k]).(String)) &&
+//@   len(intp.cmapMappings.BfChars[old(len(intp.cmapMappings.BfChars)) + k].Src) == len(old(intp.Stack[len(intp.Stack) - 2*len(intp.cmapChars) + 2*k]).(String))
+//@ define BfCharsKept(intp) = forall k :: 0 <= k && k < old(len(intp.cmapMappings.BfChars)) ==> intp.cmapMappings.BfChars[k] == old(intp.cmapMappings.BfChars[k])
+
+//@ func cidInit["endbfchar"]
+//@ ensures [C07.end.underflow] intp.cmapMappings != nil && old(depth(intp)) < 2*old(len(intp.cmapChars)) ==> isPSErr(result, eStackunderflow)
+//@ ensures [C07.end.error] result != nil && old(intp.cmapMappings) != nil ==> len(intp.cmapMappings.BfChars) == old(len(intp.cmapMappings.BfChars)) && depth(intp) == old(depth(intp))
+//@ ensures [C07.end.ok] result == nil ==> depth(intp) == old(depth(intp)) - 2*old(len(intp.cmapChars)) && len(intp.cmapMappings.BfChars) == old(len(intp.cmapMappings.BfChars)) + old(len(intp.cmapChars)) && len(intp.cmapChars) == 0
+//@ ensures [C07.end.entries] result == nil ==> BfCharsMoved(intp)
+//@ ensures [C07.end.kept] result == nil ==> BfCharsKept(intp)
+//@ loop 1 invariant [C07.end] intp.cmapMappings == old(intp.cmapMappings) && intp.cmapMappings != nil && base == len(intp.Stack) - 2*len(intp.cmapChars) && base >= 0 && len(intp.Stack) == old(len(intp.Stack)) && len(intp.cmapChars) == old(len(intp.cmapChars)) && ref(intp.Stack) == old(ref(intp.Stack)) && off(intp.Stack) == old(off(intp.Stack)) && ref(intp.cmapChars) == old(ref(intp.cmapChars)) && off(intp.cmapChars) == old(off(intp.cmapChars))
+//@ loop 1 invariant [C07.end] forall k :: 0 <= k && k < len(intp.Stack) ==> intp.Stack[k] == old(intp.Stack[k])
+//@ loop 1 invariant [C07.end] len(intp.cmapMappings.BfChars) == old(len(intp.cmapMappings.BfChars)) && (forall k :: 0 <= k && k < len(intp.cmapMappings.BfChars) ==> intp.cmapMappings.BfChars[k] == old(intp.cmapMappings.BfChars[k]))
+//@ loop 1 invariant [C07.end] forall k :: 0 <= k && k < i ==> intp.cmapChars[k].Dst == intp.Stack[base+2*k+1] && isType(intp.Stack[base+2*k], String) && ref(intp.cmapChars[k].Src) == ref(intp.Stack[base+2*k].(String)) && len(intp.cmapChars[k].Src) == len(intp.Stack[base+2*k].(String))
+
+//@ define NotdefCharsMoved(intp) = forall k :: 0 <= k && k < old(len(intp.cmapChars)) ==>
+//@   intp.cmapMappings.NotdefChars[old(len(intp.cmapMappings.NotdefChars)) + k].Dst == old(intp.Stack[len(intp.Stack) - 2*len(intp.cmapChars) + 2*k + 1]) &&
+//@   isType(old(intp.Stack[len(intp.Stack) - 2*len(intp.cmapChars) + 2*k]), String) &&
+//@   ref(intp.cmapMappings.NotdefChars[old(len(intp.cmapMappings.NotdefChars)) + k].Src) == ref(old(intp.Stack[len(intp.Stack) - 2*len(intp.cmapChars) + 2*k]).(String)) &&
+//@   len(intp.cmapMappings.NotdefChars[old(len(intp.cmapMappings.NotdefChars)) + k].Src) == len(old(intp.Stack[len(intp.Stack) - 2*len(intp.cmapChars) + 2*k]).(String))
+//@ define NotdefCharsKept(intp) = forall k :: 0 <= k && k < old(len(intp.cmapMappings.NotdefChars)) ==> intp.cmapMappings.NotdefChars[k] == old(intp.cmapMappings.NotdefChars[k])
+
+//@ func cidInit["endnotdefchar"]
+//@ ensures [C07.end.underflow] intp.cmapMappings != nil && old(depth(intp)) < 2*old(len(intp.cmapChars)) ==> isPSErr(result, eStackunderflow)
+//@ ensures [C07.end.error] result != nil && old(intp.cmapMappings) != nil ==> len(intp.cmapMappings.NotdefChars) == old(len(intp.cmapMappings.NotdefChars)) && depth(intp) == old(depth(intp))
+//@ ensures [C07.end.ok] result == nil ==> depth(intp) == old(depth(intp)) - 2*old(len(intp.cmapChars)) && len(intp.cmapMappings.NotdefChars) == old(len(intp.cmapMappings.NotdefChars)) + old(len(intp.cmapChars)) && len(intp.cmapChars) == 0
+//@ ensures [C07.end.entries] result == nil ==> NotdefCharsMoved(intp)
+//@ ensures [C07.end.kept] result == nil ==> NotdefCharsKept(intp)
+//@ loop 1 invariant [C07.end] intp.cmapMappings == old(intp.cmapMappings) && intp.cmapMappings != nil && base == len(intp.Stack) - 2*len(intp.cmapChars) && base >= 0 && len(intp.Stack) == old(len(intp.Stack)) && len(intp.cmapChars) == old(len(intp.cmapChars)) && ref(intp.Stack) == old(ref(intp.Stack)) && off(intp.Stack) == old(off(intp.Stack)) && ref(intp.cmapChars) == old(ref(intp.cmapChars)) && off(intp.cmapChars) == old(off(intp.cmapChars))
+//@ loop 1 invariant [C07.end] forall k :: 0 <= k && k < len(intp.Stack) ==> intp.Stack[k] == old(intp.Stack[k])
+//@ loop 1 invariant [C07.end] len(intp.cmapMappings.NotdefChars) == old(len(intp.cmapMappings.NotdefChars)) && (forall k :: 0 <= k && k < len(intp.cmapMappings.NotdefChars) ==> intp.cmapMappings.NotdefChars[k] == old(intp.cmapMappings.NotdefChars[k]))
+//@ loop 1 invariant [C07.end] forall k :: 0 <= k && k < i ==> intp.cmapChars[k].Dst == intp.Stack[base+2*k+1] && isType(intp.Stack[base+2*k], String) && ref(intp.cmapChars[k].Src) == ref(intp.Stack[base+2*k].(String)) && len(intp.cmapChars[k].Src) == len(intp.Stack[base+2*k].(String))
+
+//@ define CidRangesMoved(intp) = forall k :: 0 <= k && k < old(len(intp.cmapRanges)) ==>
+//@   intp.cmapMappings.CidRanges[old(len(intp.cmapMappings.CidRanges)) + k].Dst == old(intp.Stack[len(intp.Stack) - 3*len(intp.cmapRanges) + 3*k + 2]) &&
+//@   isType(old(intp.Stack[len(intp.Stack) - 3*len(intp.cmapRanges) + 3*k]), String) && isType(old(intp.Stack[len(intp.Stack) - 3*len(intp.cmapRanges) + 3*k + 1]), String) &&
+//@   ref(intp.cmapMappings.CidRanges[old(len(intp.cmapMappings.CidRanges)) + k].Low) == ref(old(intp.Stack[len(intp.Stack) - 3*len(intp.cmapRanges) + 3*k]).(String)) &&
+//@   ref(intp.cmapMappings.CidRanges[old(len(intp.cmapMappings.CidRanges)) + k].High) == ref(old(intp.Stack[len(intp.Stack) - 3*len(intp.cmapRanges) + 3*k + 1]).(String)) &&
+//@   len(intp.cmapMappings.CidRanges[old(len(intp.cmapMappings.CidRanges)) + k].Low) == len(intp.cmapMappings.CidRanges[old(len(intp.cmapMappings.CidRanges)) + k].High)
+//@ define CidRangesKept(intp) = forall k :: 0 <= k && k < old(len(intp.cmapMappings.CidRanges)) ==> intp.cmapMappings.CidRanges[k] == old(intp.cmapMappings.CidRanges[k])
+
+//@ func cidInit["endcidrange"]
+//@ ensures [C07.end.underflow] intp.cmapMappings != nil && old(depth(intp)) < 3*old(len(intp.cmapRanges)) ==> isPSErr(result, eStackunderflow)
+//@ ensures [C07.end.error] result != nil && old(intp.cmapMappings) != nil ==> len(intp.cmapMappings.CidRanges) == old(len(intp.cmapMappings.CidRanges)) && depth(intp) == old(depth(intp))
+//@ ensures [C07.end.ok] result == nil ==> depth(intp) == old(depth(intp)) - 3*old(len(intp.cmapRanges)) && len(intp.cmapMappings.CidRanges) == old(len(intp.cmapMappings.CidRanges)) + old(len(intp.cmapRanges)) && len(intp.cmapRanges) == 0
+//@ ensures [C07.end.entries] result == nil ==> CidRangesMoved(intp)
+//@ ensures [C07.end.kept] result == nil ==> CidRangesKept(intp)
+//@ loop 1 invariant [C07.end] intp.cmapMappings == old(intp.cmapMappings) && intp.cmapMappings != nil && base == len(intp.Stack) - 3*len(intp.cmapRanges) && base >= 0 && len(intp.Stack) == old(len(intp.Stack)) && len(intp.cmapRanges) == old(len(intp.cmapRanges)) && ref(intp.Stack) == old(ref(intp.Stack)) && off(intp.Stack) == old(off(intp.Stack)) && ref(intp.cmapRanges) == old(ref(intp.cmapRanges)) && off(intp.cmapRanges) == old(off(intp.cmapRanges))
+//@ loop 1 invariant [C07.end] forall k :: 0 <= k && k < len(intp.Stack) ==> intp.Stack[k] == old(intp.Stack[k])
+//@ loop 1 invariant [C07.end] len(intp.cmapMappings.CidRanges) == old(len(intp.cmapMappings.CidRanges)) && (forall k :: 0 <= k && k < len(intp.cmapMappings.CidRanges) ==> intp.cmapMappings.CidRanges[k] == old(intp.cmapMappings.CidRanges[k]))
+//@ loop 1 invariant [C07.end] forall k :: 0 <= k && k < i ==> intp.cmapRanges[k].Dst == intp.Stack[base+3*k+2] && isType(intp.Stack[base+3*k], String) && isType(intp.Stack[base+3*k+1], String) && ref(intp.cmapRanges[k].Low) == ref(intp.Stack[base+3*k].(String)) && ref(intp.cmapRanges[k].High) == ref(intp.Stack[base+3*k+1].(String)) && len(intp.cmapRanges[k].Low) == len(intp.cmapRanges[k].High)
+
+//@ define BfRangesMoved(intp) = forall k :: 0 <= k && k < old(len(intp.cmapRanges)) ==>
+//@   intp.cmapMappings.BfRanges[old(len(intp.cmapMappings.BfRanges)) + k].Dst == old(intp.Stack[len(intp.Stack) - 3*len(intp.cmapRanges) + 3*k + 2]) &&
+//@   isType(old(intp.Stack[len(intp.Stack) - 3*len(intp.cmapRanges) + 3*k]), String) && isType(old(intp.Stack[len(intp.Stack) - 3*len(intp.cmapRanges) + 3*k + 1]), String) &&
+//@   ref(intp.cmapMappings.BfRanges[old(len(intp.cmapMappings.BfRanges)) + k].Low) == ref(old(intp.Stack[len(intp.Stack) - 3*len(intp.cmapRanges) + 3*k]).(String)) &&
+//@   ref(intp.cmapMappings.BfRanges[old(len(intp.cmapMappings.BfRanges)) + k].High) == ref(old(intp.Stack[len(intp.Stack) - 3*len(intp.cmapRanges) + 3*k + 1]).(String)) &&
+//@   len(intp.cmapMappings.BfRanges[old(len(intp.cmapMappings.BfRanges)) + k].Low) == len(intp.cmapMappings.BfRanges[old(len(intp.cmapMappings.BfRanges)) + k].High)
+//@ define BfRangesKept(intp) = forall k :: 0 <= k && k < old(len(intp.cmapMappings.BfRanges)) ==> intp.cmapMappings.BfRanges[k] == old(intp.cmapMappings.BfRanges[k])
+
+//@ func cidInit["endbfrange"]
+//@ ensures [C07.end.underflow] intp.cmapMappings != nil && old(depth(intp)) < 3*old(len(intp.cmapRanges)) ==> isPSErr(result, eStackunderflow)
+//@ ensures [C07.end.error] result != nil && old(intp.cmapMappings) != nil ==> len(intp.cmapMappings.BfRanges) == old(len(intp.cmapMappings.BfRanges)) && depth(intp) == old(depth(intp))
+//@ ensures [C07.end.ok] result == nil ==> depth(intp) == old(depth(intp)) - 3*old(len(intp.cmapRanges)) && len(intp.cmapMappings.BfRanges) == old(len(intp.cmapMappings.BfRanges)) + old(len(intp.cmapRanges)) && len(intp.cmapRanges) == 0
+//@ ensures [C07.end.entries] result == nil ==> BfRangesMoved(intp)
+//@ ensures [C07.end.kept] result == nil ==> BfRangesKept(intp)
+//@ loop 1 invariant [C07.end] intp.cmapMappings == old(intp.cmapMappings) && intp.cmapMappings != nil && base == len(intp.Stack) - 3*len(intp.cmapRanges) && base >= 0 && len(intp.Stack) == old(len(intp.Stack)) && len(intp.cmapRanges) == old(len(intp.cmapRanges)) && ref(intp.Stack) == old(ref(intp.Stack)) && off(intp.Stack) == old(off(intp.Stack)) && ref(intp.cmapRanges) == old(ref(intp.cmapRanges)) && off(intp.cmapRanges) == old(off(intp.cmapRanges))
+//@ loop 1 invariant [C07.end] forall k :: 0 <= k && k < len(intp.Stack) ==> intp.Stack[k] == old(intp.Stack[k])
+//@ loop 1 invariant [C07.end] len(intp.cmapMappings.BfRanges) == old(len(intp.cmapMappings.BfRanges)) && (forall k :: 0 <= k && k < len(intp.cmapMappings.BfRanges) ==> intp.cmapMappings.BfRanges[k] == old(intp.cmapMappings.BfRanges[k]))
+//@ loop 1 invariant [C07.end] forall k :: 0 <= k && k < i ==> intp.cmapRanges[k].Dst == intp.Stack[base+3*k+2] && isType(intp.Stack[base+3*k], String) && isType(intp.Stack[base+3*k+1], String) && ref(intp.cmapRanges[k].Low) == ref(intp.Stack[base+3*k].(String)) && ref(intp.cmapRanges[k].High) == ref(intp.Stack[base+3*k+1].(String)) && len(intp.cmapRanges[k].Low) == len(intp.cmapRanges[k].High)
+
+//@ define NotdefRangesMoved(intp) = forall k :: 0 <= k && k < old(len(intp.cmapRanges)) ==>
+//@   intp.cmapMappings.NotdefRanges[old(len(intp.cmapMappings.NotdefRanges)) + k].Dst == old(intp.Stack[len(intp.Stack) - 3*len(intp.cmapRanges) + 3*k + 2]) &&
+//@   isType(old(intp.Stack[len(intp.Stack) - 3*len(intp.cmapRanges) + 3*k]), String) && isType(old(intp.Stack[len(intp.Stack) - 3*len(intp.cmapRanges) + 3*k + 1]), String) &&
+//@   ref(intp.cmapMappings.NotdefRanges[old(len(intp.cmapMappings.NotdefRanges)) + k].Low) == ref(old(intp.Stack[len(intp.Stack) - 3*len(intp.cmapRanges) + 3*k]).(String)) &&
+//@   ref(intp.cmapMappings.NotdefRanges[old(len(intp.cmapMappings.NotdefRanges)) + k].High) == ref(old(intp.Stack[len(intp.Stack) - 3*len(intp.cmapRanges) + 3*k + 1]).(String)) &&
+//@   len(intp.cmapMappings.NotdefRanges[old(len(intp.cmapMappings.NotdefRanges)) + k].Low) == len(intp.cmapMappings.NotdefRanges[old(len(intp.cmapMappings.NotdefRanges)) + k].High)
+//@ define NotdefRangesKept(intp) = forall k :: 0 <= k && k < old(len(intp.cmapMappings.NotdefRanges)) ==> intp.cmapMappings.NotdefRanges[k] == old(intp.cmapMappings.NotdefRanges[k])
+
+//@ func cidInit["endnotdefrange"]
+//@ ensures [C07.end.underflow] intp.cmapMappings != nil && old(depth(intp)) < 3*old(len(intp.cmapRanges)) ==> isPSErr(result, eStackunderflow)
+//@ ensures [C07.end.error] result != nil && old(intp.cmapMappings) != nil ==> len(intp.cmapMappings.NotdefRanges) == old(len(intp.cmapMappings.NotdefRanges)) && depth(intp) == old(depth(intp))
+//@ ensures [C07.end.ok] result == nil ==> depth(intp) == old(depth(intp)) - 3*old(len(intp.cmapRanges)) && len(intp.cmapMappings.NotdefRanges) == old(len(intp.cmapMappings.NotdefRanges)) + old(len(intp.cmapRanges)) && len(intp.cmapRanges) == 0
+//@ ensures [C07.end.entries] result == nil ==> NotdefRangesMoved(intp)
+//@ ensures [C07.end.kept] result == nil ==> NotdefRangesKept(intp)
+//@ loop 1 invariant [C07.end] intp.cmapMappings == old(intp.cmapMappings) && intp.cmapMappings != nil && base == len(intp.Stack) - 3*len(intp.cmapRanges) && base >= 0 && len(intp.Stack) == old(len(intp.Stack)) && len(intp.cmapRanges) == old(len(intp.cmapRanges)) && ref(intp.Stack) == old(ref(intp.Stack)) && off(intp.Stack) == old(off(intp.Stack)) && ref(intp.cmapRanges) == old(ref(intp.cmapRanges)) && off(intp.cmapRanges) == old(off(intp.cmapRanges))
+//@ loop 1 invariant [C07.end] forall k :: 0 <= k && k < len(intp.Stack) ==> intp.Stack[k] == old(intp.Stack[k])
+//@ loop 1 invariant [C07.end] len(intp.cmapMappings.NotdefRanges) == old(len(intp.cmapMappings.NotdefRanges)) && (forall k :: 0 <= k && k < len(intp.cmapMappings.NotdefRanges) ==> intp.cmapMappings.NotdefRanges[k] == old(intp.cmapMappings.NotdefRanges[k]))
+//@ loop 1 invariant [C07.end] forall k :: 0 <= k && k < i ==> intp.cmapRanges[k].Dst == intp.Stack[base+3*k+2] && isType(intp.Stack[base+3*k], String) && isType(intp.Stack[base+3*k+1], String) && ref(intp.cmapRanges[k].Low) == ref(intp.Stack[base+3*k].(String)) && ref(intp.cmapRanges[k].High) == ref(intp.Stack[base+3*k+1].(String)) && len(intp.cmapRanges[k].Low) == len(intp.cmapRanges[k].High)
